@@ -89,6 +89,13 @@ contract(
 )
 
 
+_CT_base = __import__('dvc.contracts', fromlist=['CONTRACTS']).CONTRACTS['dtw.warping_paths']
+_CT_base.returns = ('tuple', 'val', 'matrix')        # what a caller that uses this contract receives (C05: dtw.warping_path)
+_CT_base.ensures = list(_CT_base.ensures) + [
+    'implies(kwargs["max_length_diff"] is None or abs(%s - %s) <= kwargs["max_length_diff"], result[1].shape == (%s + 1, %s + 1))'
+    % (R, C, R, C)]
+
+
 # ---------------------------------------------------------------------------------------------
 # dtw.distance: rolling two-row buffer.  Buffer row `x` (x in {0,1}) holds, for the matrix row it
 # currently represents, column `col` at position x*length + col - skip.
